@@ -31,11 +31,12 @@ PROPS["C04"] = dict(
                  "thorough": _c04_equiv([B_TET, B_LOWDIM], [0, 1], [0, 1], [(0, 0), (1, 0), (2, 3), (3, 1), (4, 0)]) + _c04_equiv([B_TET2_FACE], [0, 1], [0], [(0, 0), (3, 5), (4, 1)])},
          bounds="two real meshes: deferred mode (fast on/off) + 1..2 deletions + collect_garbage vs. the same deletions performed immediately (fast on/off); every first victim (symbolic selector, 4 per query), "
                 "selected second victims; compared through int tag properties at symbolic probe indices: same survivors, same definitions up to renumbering, no pending deletions"),
-    dict(name="c04-status", entries=["harness_c04_status"], **_c04_common, tiers=["thorough"],
-         shards={"quick": [], "thorough": _c04_status([B_TET], [1, 3, 0], [(0, 0), (2, 1)], [0, 1], [0, 1]) + _c04_status([B_LOWDIM, B_TET2_FACE], [1], [(0, 0)], [0, 1], [1])},
-         bounds="StatusAttrib::garbage_collection (both overloads): 1..2 status-marked entities (first by symbolic selector), both values of the manifoldness flag, fast deletion on/off, mesh initially deferred or not; "
+    dict(name="c04-status", entries=["harness_c04_status"], **_c04_common,
+         shards={"quick": _c04_status([B_TET], [1], [(0, 0)], [0, 1], [1]) + _c04_status([B_LOWDIM], [1 | (7 << 2)], [(0, 0)], [1], [0]), "thorough": _c04_status([B_TET], [1, 3, 0], [(0, 0), (2, 1)], [0, 1], [0, 1]) + _c04_status([B_LOWDIM, B_TET2_FACE], [1], [(0, 0)], [0, 1], [1])
+                                      + _c04_status([B_LOWDIM, B_TET], [1 | (7 << 2), 1 | (2 << 2), 3 | (4 << 2)], [(0, 0)], [1], [0])},
+         bounds="StatusAttrib::garbage_collection (both overloads): 1..2 status-marked entities (first by symbolic selector), both values of the manifoldness flag, fast deletion on/off, mesh initially deferred or not, also with bottom-up incidence kinds switched off beforehand; "
                 "tracked handles of all four kinds with SYMBOLIC values; compared with the reference closure/manifold pass/renumbering"),
   ],
   assumptions=["collect_garbage and leaving deferred mode against the documented renumbering: C02 (job c02-k2); property values through garbage collection: C03",
-               "c04-status is in the thorough tier only: with two same-size property storages in one module the translator's typed-storage recovery is ambiguous and symbolic execution does not finish within the quick budget (see DESIGN.md)"],
+               "c04-status needs the translator's per-allocation-site typed recovery of make_shared control blocks (two same-size property storages in one module)"],
 )
